@@ -78,3 +78,9 @@ package types
 //@ func NewExecuteEnv
 //@ trusted
 //@ ensures result.Retdata == nil
+
+// C01 / C02: the callbacks the VM makes into the environment while a script runs (inside the end-blocker) never panic,
+// whatever validator index or external id the script asks for: an index outside the request's validators is an error
+// the script can handle, not an index out of range that takes the end-blocker down
+//@ func (env *ExecuteEnv) getExternalDataFull
+//@ ensures (valIdx < 0 || valIdx >= len(env.request.RequestedValidators)) ==> err != nil
